@@ -480,7 +480,11 @@ func (r *replayer) concretiseUF(v *Violation, prop string) {
 	orig := v.Inputs
 	seed := uint64(88172645463325252)
 	next := func() uint64 { seed ^= seed << 13; seed ^= seed >> 7; seed ^= seed << 17; return seed }
-	for attempt := 0; attempt < 24; attempt++ {
+	attempts := 24
+	if v.XDomain {
+		attempts = 60
+	}
+	for attempt := 0; attempt < attempts; attempt++ {
 		in := map[string]string{}
 		for k, val := range orig {
 			in[k] = val
@@ -494,6 +498,20 @@ func (r *replayer) concretiseUF(v *Violation, prop string) {
 				f = float64(int64(next()%199) - 99)
 			default:
 				f = float64(int64(next()%2000001)-1000000) / 8
+			}
+			if v.XDomain {
+				// grid inputs are read as rationals natively: small integers
+				switch {
+				case attempt == 0:
+					in[n] = fmt.Sprint(3*i + 1 + (i*i)%7)
+				case attempt%3 == 1:
+					in[n] = fmt.Sprint(int64(next()%9) - 4)
+				case attempt%3 == 2:
+					in[n] = fmt.Sprint(int64(next()%41) - 20)
+				default:
+					in[n] = fmt.Sprint(int64(next()%2001) - 1000)
+				}
+				continue
 			}
 			in[n] = fmt.Sprintf("0x%x", math.Float64bits(f))
 		}
